@@ -732,6 +732,18 @@ func (env *Zlisp) LoadExpressions(xs []Sexp) error {
 	//P("expressions after RemoveCommentsFilter: '%s'", (&SexpArray{Val: expressions, Env: env}).SexpString(0))
 	expressions = env.FilterArray(expressions, RemoveEndsFilter)
 
+	if env.curfunc == env.mainfunc && env.ReachedEnd() && env.addrstack.IsEmpty() {
+		// the interpreter is at rest: the code of the texts it has
+		// served has run to its end and nothing returns into it.
+		// Start the main function afresh, as Clear does, so that an
+		// idle interpreter does not keep the code (and the constants)
+		// of every evaluation it ever made.
+		env.mainfunc = env.MakeFunction("__main", 0, false,
+			make([]Instruction, 0), nil)
+		env.curfunc = env.mainfunc
+		env.pc = 0
+	}
+
 	gen := NewGenerator(env)
 	if !env.ReachedEnd() {
 		gen.AddInstruction(PopInstr(0))
